@@ -196,7 +196,7 @@ func (b *Buffer) ReadN(n int) []byte {
 		return nil
 	}
 	d := b.buf[b.pos:]
-	if n > len(d) {
+	if n < 0 || n > len(d) {
 		b.err = io.ErrUnexpectedEOF
 		return nil
 	}
